@@ -199,6 +199,9 @@ def list_set_arrays(st, lst, n, arrays):
 def new_list(st, elem, n, arrays):
     r = z3.simplify(alloc(st))
     lst = VList(elem, r)
+    if elem is None:      # [] whose element type is not known yet: only its length exists
+        st.heap["@len"] = z3.Store(harr(st, "@len", I), lst.t, n)
+        return lst
     list_set_arrays(st, lst, n, arrays)
     return lst
 
